@@ -2,6 +2,7 @@ package rules
 
 import (
 	"go/ast"
+	"go/types"
 
 	"engcheck/core"
 )
@@ -203,6 +204,31 @@ func pollingEffects(c *core.Ctx, R string) {
 			{name: "compress-error→500", match: mNameInt("SetStatusCode", 0, 500), on: []core.Guard{compressFailed}},
 			{name: "compress-error→write", match: mKey("types.(*HttpContext).Write"), on: []core.Guard{compressFailed}, after: "compress-error→500"},
 			{name: "compressed→respond(buf)", match: mLocalCall("respond"), off: []core.Guard{compressFailed}, after: ""},
+		})
+	}
+	// ---- send: the encoder failed (a packet's reader returned an error) — fix f9015f7 ----
+	if u := c.Fn(R, polSendWorker); u != nil {
+		encodeFailed := nilGuard(true, func(x *core.Unit, e ast.Expr) bool {
+			v, _ := core.ObjOf(x.Info(), e).(*types.Var)
+			if v == nil {
+				return false
+			}
+			for _, d := range x.DefsOf(v) {
+				te, isT := d.(*core.TupleElem)
+				if !isT || te.Index != 1 {
+					continue
+				}
+				if ce, isC := ast.Unparen(te.X).(*ast.CallExpr); isC && hasSuffixAny(x.CalleeKey(ce), ".EncodePayload") {
+					return true
+				}
+			}
+			return false
+		})
+		requireEffects(c, R, u, []effect{
+			{name: "encode-error→500", match: mNameInt("SetStatusCode", 0, 500), on: []core.Guard{encodeFailed}},
+			{name: "encode-error→write", match: mKey("types.(*HttpContext).Write"), on: []core.Guard{encodeFailed}, after: "encode-error→500"},
+			{name: "encode-error→OnError", match: mName("OnError"), on: []core.Guard{encodeFailed}},
+			{name: "encoded→write", match: mKey("transports.(*polling).write"), off: []core.Guard{encodeFailed}},
 		})
 	}
 	// ---- DoClose: the 429 abort of an unfinished data request ----
